@@ -483,7 +483,58 @@ def translate_server_loops(tree):
             "task_group.create_task(self._send_loop(), name='server-rpc-send-loop')" not in text or \
             "async with asyncio.TaskGroup() as task_group" not in text:
         raise TranslatorError("RPCServerConnection.serve: the two loops are not run in one TaskGroup")
-    return none_rule, "RIFromRequest", translate_completed_queue(tree, cls)
+    return none_rule, "RIFromRequest", translate_completed_queue(tree, cls), translate_connection_state(tree, cls)
+
+
+PER_CONNECTION_FIELDS = ("_stop_event", "_completed", "_tasks")
+
+
+def translate_connection_state(tree, cls):
+    """Is the mutable state of a connection created per instance?
+
+    True iff (a) each of _stop_event / _completed / _tasks of RPCServerConnection is an `attrs.field(init=False,
+    factory=...)` (no constructor argument can supply it), every other field of the class is one of handler / reader /
+    writer, and (b) the only place that builds a connection, SocketRPCServer._serve_connection, calls
+    `RPCServerConnection(self.handler, reader, writer)` with nothing else. False (generated, so that the
+    non-interference theorem is refuted rather than the translator failing) when a state field is an init argument or
+    the server passes more than handler, reader, writer. Unknown shapes fail closed."""
+    per_instance = True
+    seen = set()
+    for st in cls.body:
+        if not (isinstance(st, ast.AnnAssign) and isinstance(st.target, ast.Name)):
+            continue
+        name = st.target.id
+        seen.add(name)
+        if name in ("handler", "reader", "writer"):
+            continue
+        if name not in PER_CONNECTION_FIELDS:
+            raise TranslatorError(f"RPCServerConnection: unknown field {name}")
+        if not isinstance(st.value, ast.Call) or _u(st.value.func) != "attrs.field" or st.value.args:
+            raise TranslatorError(f"RPCServerConnection.{name}: field definition not recognised")
+        kw = {k.arg: k.value for k in st.value.keywords}
+        if "factory" not in kw or set(kw) - {"init", "factory"}:
+            raise TranslatorError(f"RPCServerConnection.{name}: attrs.field arguments not recognised")
+        if "init" not in kw or _u(kw["init"]) != "False":
+            per_instance = False          # the creator of the connection may hand in a shared object
+    if not set(PER_CONNECTION_FIELDS) <= seen:
+        raise TranslatorError("RPCServerConnection: a per-connection state field is missing")
+    srv = None
+    for node in tree.body:
+        if isinstance(node, ast.ClassDef) and node.name == "SocketRPCServer":
+            srv = node
+    if srv is None:
+        raise TranslatorError("class SocketRPCServer not found")
+    builds = [n for n in ast.walk(tree) if isinstance(n, ast.Call) and _u(n.func) == "RPCServerConnection"]
+    sc = find_function(srv, "_serve_connection")
+    inside = [n for n in ast.walk(sc) if isinstance(n, ast.Call) and _u(n.func) == "RPCServerConnection"]
+    if len(builds) != 1 or len(inside) != 1:
+        raise TranslatorError("RPCServerConnection is not built exactly once, in SocketRPCServer._serve_connection")
+    call = inside[0]
+    if [_u(a) for a in call.args[:3]] != ["self.handler", "reader", "writer"]:
+        raise TranslatorError("_serve_connection: connection arguments not recognised: " + _u(call)[:120])
+    if len(call.args) > 3 or call.keywords:
+        per_instance = False
+    return per_instance
 
 
 def translate_completed_queue(tree, cls):
@@ -641,7 +692,7 @@ def generate():
     cap = translate_capture(tree)
     usage, te_steps = translate_remote_failure(tree)
     rr = translate_raise_remote(tree)
-    none_rule, rid, qbound = translate_server_loops(tree)
+    none_rule, rid, qbound, per_instance = translate_server_loops(tree)
     translate_clients(tree)
     allowed, other = director_allow_list()
 
@@ -682,6 +733,9 @@ def generate():
         "(* capacity of RPCServerConnection._completed; None = unbounded. _queue_reply uses put_nowait in a done",
         "   callback: on a full queue the reply is lost *)",
         f"Definition completed_maxsize : option nat := {opt(qbound)}.",
+        "(* _stop_event/_completed/_tasks of a connection are created per instance (init=False factories) and",
+        "   SocketRPCServer._serve_connection passes handler, reader, writer only *)",
+        f"Definition connection_state_per_instance : bool := {'true' if per_instance else 'false'}.",
         "(* @allow_rpc methods of DirectorHandler *)",
         "Definition director_allowed : list str := [",
         ";\n".join(f"  {coq_str(n)} (* {n} *)" for n in allowed),
